@@ -12,8 +12,10 @@ APIS = ['assert_directory_verifies', 'assert_directory_verifies(sub)', 'verify_p
         'find_dist_entry']
 
 
-def chain_plan(rng, depth):
-    """a tree with a chain of nested sub-Manifests of the given depth below the top"""
+def chain_plan(rng, depth, weak=False):
+    """a tree with a chain of nested sub-Manifests of the given depth below the top. weak: one link of the chain is a MANIFEST
+    entry whose only checksums are under names the interpreter cannot compute (the code must refuse it, not fall back to
+    the size); the Manifests are stored plain then, so that a same-size tampering keeps every size"""
     pl = gen_tree.Plan()
     d = ''
     names = ['cat', 'pkg', 'files', 'deep', 'deeper', 'x y', 'é']
@@ -22,7 +24,7 @@ def chain_plan(rng, depth):
     for lvl in range(depth):
         d = os.path.join(d, names[lvl]) if d else names[lvl]
         pl.dirs.add(d)
-        nm = rng.choice(gen_tree.MANIFEST_NAMES)
+        nm = 'Manifest' if weak else rng.choice(gen_tree.MANIFEST_NAMES)
         mdirs[d] = nm
         chain.append(os.path.join(d, nm))
         # siblings with their own Manifests and files, to have something beside the chain
@@ -39,7 +41,7 @@ def chain_plan(rng, depth):
     # the layout of the real Gentoo repository: the top-level Manifest references nothing but a second Manifest of the top
     # directory (Manifest.files[.gz]), which holds everything else - the chain then passes through a same-directory link
     split_top = rng.random() < 0.35
-    files_nm = 'Manifest.files' + rng.choice(['', '.gz', '.xz'])
+    files_nm = 'Manifest.files' + ('' if weak else rng.choice(['', '.gz', '.xz']))
     if split_top:
         pl.manifests[files_nm] = []
         chain.insert(1, files_nm)
@@ -83,6 +85,15 @@ def chain_plan(rng, depth):
                                      'hashes': rng.choice(gen_tree.HASHSETS[1:])})
     deepest = chain[-1]
     pl.manifests[deepest].append({'tag': 'DIST', 'path': 'dist-1.tar.gz', 'size': 3, 'cks': {'MD5': 'aa'}})
+    pl.weak_link = None
+    if weak:
+        link = rng.choice(chain[1:])
+        for es in pl.manifests.values():
+            for e in es:
+                if e['tag'] == 'MANIFEST' and e['target'] == link:
+                    e['hashes'] = []
+                    e['fake_cks'] = rng.choice([{'WHIRLPOOL': 'ab' * 64}, {'FOO': 'aa'}, {'WHIRLPOOL': 'cd' * 64, 'SHA3_999': '00'}])
+                    pl.weak_link = link
     return pl, chain, d
 
 
@@ -114,7 +125,9 @@ def run_apis(ctx, drv, root, pl, victim, vdir, chain, k, kind):
         ctx.case(json.dumps(req, sort_keys=True), True,
                  {'api': api, 'chain': chain, 'tampered': kind, 'recomputed_from_level': k, 'impl': impl if 'err' in impl else 'result'})
         want = {'err': 'mismatch', 'path': cps(broken)}
-        if k == 0:
+        if getattr(pl, 'weak_link', None) and impl.get('err') == 'unsupportedhash':
+            ctx.count('refused:unsupported-hash-on-the-chain')      # the refusal the weak link calls for
+        elif k == 0:
             # nothing restored: the attacker recomputed everything incl. the top: nothing can be detected (control)
             if 'err' in impl and kind != 'none':
                 pass
@@ -132,21 +145,26 @@ def one_case(ctx, drv):
     root = common.scratch_dir('gv.c02.')
     try:
         depth = rng.randint(1, 5)
-        pl, chain, deep = chain_plan(rng, depth)
+        weak = rng.random() < 0.2
+        pl, chain, deep = chain_plan(rng, depth, weak)
         gen_tree.write_plan(pl, root)
         ok = treeimpl.verify_dir(root, 'Manifest', '')
-        if ok.get('ret') is not True:
+        if weak and ok.get('err') == 'unsupportedhash':
+            pass
+        elif ok.get('ret') is not True:
             ctx.fail('consistent-tree-rejected', {'op': 'tamper', 'chain': chain}, json.dumps(ok)[:200])
             return
         old = {mp: open(os.path.join(root, mp), 'rb').read() for mp in pl.manifests}
         # the tampering, below the deepest Manifest of the chain
-        kind = rng.choice(['changed', 'added', 'removed', 'dist-changed'])
+        kind = 'changed-same-size' if weak else rng.choice(['changed', 'changed-same-size', 'added', 'removed', 'dist-changed'])
         vdir = deep
         victims = sorted(p for p in pl.files if os.path.dirname(p) == deep)
         victim = rng.choice(victims)
         gm = chain[-1]
         if kind == 'changed':
             pl.files[victim] = pl.files[victim] + b'!'
+        elif kind == 'changed-same-size':
+            pl.files[victim] = bytes([pl.files[victim][0] ^ 0x41]) + pl.files[victim][1:]
         elif kind == 'added':
             victim = os.path.join(deep, 'evil')
             pl.files[victim] = b'evil'
@@ -172,9 +190,11 @@ def one_case(ctx, drv):
 
 def run(ctx):
     ctx.rule = ('Manifest trees with a chain of nested sub-Manifests of depth 1..5 (any mix of plain/gz/bz2/lzma/xz, a second Manifest '
-                'in one directory), a tampered file below the deepest one (changed / added / removed / DIST entry changed), all '
+                'in one directory; in a fifth of the cases one link whose only checksums are under names hashlib cannot compute, all sizes '
+                'kept by the tampering), a tampered file below the deepest one (changed / same size / added / removed / DIST entry changed), all '
                 'Manifests recomputed consistently with an independent writer from the file up to level k while levels above k are '
-                'left untouched; six entry points on fresh loaders. Oracle: each must raise the mismatch for the level-k Manifest. '
+                'left untouched; six entry points on fresh loaders. Oracle: each must raise the mismatch for the level-k Manifest (or refuse '
+                'the uncomputable link with UnsupportedHash). '
                 'non-trivial = every distinct request')
     ctx.assumptions = ['the parent entry lists at least one checksum (an entry with no checksum and an unchanged size detects nothing)',
                        'fresh loader per call (a loader that first ran an update keeps unverified Manifests by design)',
